@@ -881,5 +881,45 @@ func errIgnoreReason(p *Program, f *FuncInfo, call *ast.CallExpr, name string) (
 			return r, true
 		}
 	}
+	// a private helper of a reviewed function inherits its entries: f is unexported, lies in the
+	// callee closure of the reviewed function, and is called from nowhere else
+	self := f
+	if d := p.enclosingDecl(f); d != nil {
+		self = d
+	}
+	if self.Obj == nil || ast.IsExported(self.Obj.Name()) {
+		return "", false
+	}
+	for _, rev := range sortedKeys(errIgnoreTable) {
+		r, ok := errIgnoreTable[rev][short]
+		if !ok {
+			continue
+		}
+		rf := p.Func(rev)
+		if rf == nil || rf.Body() == nil {
+			continue
+		}
+		closure := p.CalleeClosure(rf, 3)
+		in := map[*FuncInfo]bool{}
+		for _, g := range closure {
+			in[g] = true
+		}
+		if !in[self] || self == rf || self.Obj == nil {
+			continue
+		}
+		private := true
+		for _, caller := range callersOf(p, self.Obj) {
+			cd := caller
+			if d := p.enclosingDecl(caller); d != nil {
+				cd = d
+			}
+			if !in[cd] {
+				private = false
+			}
+		}
+		if private {
+			return r + " (inherited by the private helper " + self.Name + " of " + rev + ")", true
+		}
+	}
 	return "", false
 }
